@@ -256,6 +256,18 @@ pub fn execute_with(f: &Fam, presented: Option<&[u8]>, extra: &ExecExtra) -> Obs
                 opts.seeds.push(name);
             }
         }
+        // credentials the server insists on, on every request (first, merged, retried alike)
+        if f.http && gen::chance(1, 5) {
+            let spelled = *gen::t(|t| t.pick(&["Authorization: Bearer s3cr3t", "Authorization:Bearer s3cr3t", "authorization:   Bearer s3cr3t"]));
+            opts.headers.push(spelled.to_string());
+            if gen::chance(1, 2) {
+                opts.headers.push("X-Trace: on".to_string());
+            }
+            if let Some(s) = &server {
+                s.lock().unwrap().require_header = Some(("authorization".into(), "Bearer s3cr3t".into()));
+            }
+            simkit::count("probe:http-header-required-by-server");
+        }
         // a generous --http-timeout changes nothing: no simulated transfer takes a day
         if f.http && opts.timeout.is_none() && gen::chance(1, 4) {
             opts.timeout = Some(86_400);
